@@ -54,6 +54,31 @@ def run_case(case, rnd, n_points):
             for (a, b, f) in ((0, 0, 0), (0, 0, 1), (0, 1, 0), (0, 1, 1)):
                 e2 = dict(env, x=float(xs[a, b, f]), sigma=float(sig[f]))
                 lay &= close(float(g2[a, b, f]), ev(term, e2))
+        elif fam == "mixnormal":
+            # per-cluster Gaussian regularity of the mixture prior: a scalar individual variable (tau / xi layout: loc, scale per
+            # cluster) and a vector one (sources layout: loc per individual source and cluster, one scale per source)
+            from leaspy.variables.distributions import MixtureNormalFamily
+            mus = [rnd.uniform(-3, 80), rnd.uniform(-3, 80)]
+            sigs = [rnd.choice([0.05, 0.5, 2.0]), rnd.choice([0.5, 7.5])]
+            xs = [rnd.uniform(-3, 80), rnd.uniform(-3, 80), rnd.uniform(-3, 80)]
+            x = WeightedTensor(torch.tensor([[v] for v in xs], dtype=torch.float32))
+            probs = torch.tensor([0.3, 0.7])
+            g = MixtureNormalFamily._nll(x, torch.tensor(mus), torch.tensor(sigs), probs).value   # (n_ind, n_clusters)
+            env.update(x=xs[0], mu=mus[0], sigma=sigs[0])
+            got = float(g[0, 0])
+            ref = ev(term, env)
+            for i in range(3):
+                for c in range(2):
+                    lay &= close(float(g[i, c]), ev(term, dict(env, x=xs[i], mu=mus[c], sigma=sigs[c])))
+            # sources layout: value (n_ind, n_sources), loc (n_sources, n_clusters), one scalar scale (as in the model)
+            xv = torch.tensor([[xs[0], xs[1]], [xs[2], xs[0]], [xs[1], xs[2]]], dtype=torch.float32)
+            loc2 = torch.tensor([[mus[0], mus[1]], [mus[1], mus[0]]], dtype=torch.float32)
+            sc2 = torch.tensor(sigs[1])
+            g2 = MixtureNormalFamily._nll(WeightedTensor(xv), loc2, sc2, probs).value                               # (n_ind, n_sources, n_clusters)
+            for i in range(3):
+                for sidx in range(2):
+                    for c in range(2):
+                        lay &= close(float(g2[i, sidx, c]), ev(term, dict(env, x=float(xv[i, sidx]), mu=float(loc2[sidx, c]), sigma=float(sc2))))
         elif fam == "bernoulli":
             y = 1.0 if rec["yb"] == "y1" else 0.0
             p = {"interior": rnd.uniform(0.02, 0.98), "sat0": 0.0, "sat1": 1.0}[rec["pb"]]
